@@ -67,6 +67,10 @@ def build(cfg):
         ud = {kk: jnp.asarray(np.array(v, dtype=float)) for kk, v in cfg.get("user", {}).items()}
         if cfg.get("user_2d"):
             ud = {kk: v[:, None] for kk, v in ud.items()}
+        if cfg.get("keydict"):
+            # documented alternative: one PRNG key per parameter name, here written in non-alphabetical order
+            names = sorted(set(pr) | set(ud), reverse=True)
+            k = {nm: jax.random.fold_in(k, i) for i, nm in enumerate(names)}
         return jinns.data.DataGeneratorParameter(k, cfg["n"], cfg["b"], pr, cfg.get("method", "uniform"), ud)
     raise ValueError(kind)
 
